@@ -24,6 +24,9 @@ pub struct Three {
 }
 
 pub fn addr(a: i64) -> Multiaddr {
+    if a >= 1000 {
+        return format!("/memory/{a}").parse().unwrap();
+    }
     if a == 100 {
         "/ip4/10.0.0.100/tcp/1".parse().unwrap()
     } else {
@@ -33,6 +36,9 @@ pub fn addr(a: i64) -> Multiaddr {
 
 pub fn abs_addr_int(s: &str) -> i64 {
     let base = s.split("/p2p/").next().unwrap();
+    if let Some(m) = base.strip_prefix("/memory/") {
+        return m.parse().unwrap_or(-1);
+    }
     if base == "/ip4/10.0.0.100/tcp/1" {
         100
     } else {
@@ -132,6 +138,10 @@ where
         rig.world.push_event(Ev::NewAddress(lid, addr(100)));
         rig.poll_quiescent();
         rig.log.drain();
+        Run { rig, slot_conn: vec![], upg_conn: vec![], used: vec![], events: vec![], listener, seq: 0 }
+    }
+
+    pub fn from_rig(rig: Rig<B>, listener: i64) -> Run<B> {
         Run { rig, slot_conn: vec![], upg_conn: vec![], used: vec![], events: vec![], listener, seq: 0 }
     }
 
